@@ -29,7 +29,7 @@ CONSTANTS Part,        \* "pairs" | "stack" | "bph"
           MaxCount,    \* distinct contacts per label 1..MaxCount
           MaxO2,       \* of which through O2' (0..MaxO2)
           O2Twice,     \* TRUE = as implemented
-          StackFlagsFull  \* stack: TRUE = every flag combination per candidate, FALSE = reduced palette
+          StackFlagsFull  \* stack: "full" = every flag combination per candidate, "mid" / "few" = reduced palettes
 
 VARIABLES pc,
           labels,      \* pairs: label index -> <<d, o>> (distinct contacts, of which via O2')
@@ -120,7 +120,9 @@ FullFlags == { f \in [df : Q3, nnf : Q3, ocf : Q3, owf : Q3, dotf : {"pos", "neg
                (f.ocf = "in" => f.owf = "in") /\ (f.ocf = "near" => f.owf \in {"in", "near"}) }
 \* reduced palette for the larger world: qualifies / too far / undecided distance, both dot signs
 FewFlags  == { f \in FullFlags : f.nnf = "in" /\ f.ocf = "in" }
-CandFlags == IF StackFlagsFull THEN FullFlags ELSE FewFlags
+\* medium palette: no "near" on the angles
+MidFlags  == { f \in FullFlags : f.nnf \in {"in", "out"} /\ f.ocf \in {"in", "out"} /\ f.owf \in {"in", "out"} }
+CandFlags == IF StackFlagsFull = "full" THEN FullFlags ELSE IF StackFlagsFull = "mid" THEN MidFlags ELSE FewFlags
 Perms == { p \in [Res -> Res] : \A a, b \in Res : a # b => p[a] # p[b] }
 
 InitStack ==
